@@ -13,7 +13,7 @@
 (*        [st, ret, nlog, meta]        (ret: rendered values [t, hi, lo, s, sh])           *)
 (*      ValueMatches / ClauseV / ClauseS / ClauseM / SoundRun / Sound, used by the trace    *)
 (*      specification spec/trace/EvalTrace.tla which executes the programs.                *)
-EXTENDS Integers, Sequences, FiniteSets, SequencesExt
+EXTENDS Integers, Sequences, FiniteSets, SequencesExt, LuaStr
 
 Mx(a, b) == IF a > b THEN a ELSE b
 
@@ -47,7 +47,11 @@ NumCmp  == {Lf("0"), Lf("(-0)"), Lf("1"), Lf("(1/0)"), Lf("(0/0)")}
 NStrAll == {Lf("\"1\""), Lf("\" 2 \""), Lf("\"0x10\""), Lf("\"1e1\"")}
 \* further numeric-looking strings (thorough tier): what darklua's own number syntax accepts vs. what Lua's coercion accepts
 NStrExtra == {Lf("\"-1\""), Lf("\".5\""), Lf("\"0b1\""), Lf("\"1_0\""), Lf("\"\\t1\\n\""), Lf("\"0x\""), Lf("\"1e\""), Lf("\"- 1\"")}
-StrAll  == {Lf("\"\""), Lf("\"a\""), Lf("\"abc\""), Lf("\"\\255\"")}
+\* literals whose VALUE depends on how escapes are read: `\z` followed by ASCII blanks (skipped), by a vertical tab (skipped: C's
+\* isspace), by U+00A0 / U+0085 (NOT skipped: their UTF-8 bytes are not blanks for Lua), and hex / unicode / decimal escapes
+StrEsc  == {Lf("\"a\\z   b\""), Lf(StrOfBytes(<<34, 97, 92, 122, 32, 160, 98, 34>>)), Lf(StrOfBytes(<<34, 92, 122, 133, 34>>)),
+            Lf(StrOfBytes(<<34, 97, 92, 122, 11, 98, 34>>)), Lf("\"\\u{e9}\\x41\\065\"")}
+StrAll  == {Lf("\"\""), Lf("\"a\""), Lf("\"abc\""), Lf("\"\\255\"")} \cup StrEsc
 StrCore == {Lf("\"\""), Lf("\"a\""), Lf("\"\\255\"")}
 MiscAll == {Lf("nil"), Lf("true"), Lf("false"), Lf("{}"), Lf("{1}"), Lf("function() end")}
 OpqAll  == {Op("x", 1, 0, 0), Op("y", 0, 1, 0), Op("x.k", 1, 0, 0), Op("x[1]", 1, 0, 0), Op("x()", 1, 0, 0),
